@@ -53,6 +53,8 @@ def impl(case):
 
 def model(case):
     p, enc = _setup(case)
+    if not PC.ascending(p):
+        return None  # outside the theorems' hypothesis (DiceOK): the brute-force oracle decides
     return " ".join(["RWC"] + PC.pool_tokens(p, enc) + gen.which_tokens(case["which"]))
 
 
@@ -76,6 +78,10 @@ shrink = PC.shrink_pool_case
 
 def generate(rnd, tier, scale):
     n = int((1500 if tier == "quick" else 12000) * scale)
+    for _ in range(max(20, n // 40)):
+        dice = gen.rand_pool(rnd, max_dice=3, max_faces=4, kind=rnd.choice(["int", "neg"]))
+        ncur = len([h for h in dice if any(c for _, c in h)])
+        yield dict(dice=dice, which=gen.rand_which(rnd, ncur), mixed=True)
     for _ in range(n):
         big = tier == "thorough" and rnd.random() < 0.15
         dice = gen.rand_pool(rnd, max_dice=6 if big else 4, max_faces=5 if big else 4)
